@@ -49,12 +49,8 @@ func H_C06_Cycle() {
 	universe := vUniverse[:1]
 	nT := 3
 	if vrt.Thorough() {
-		// one key over four tables, or two keys over three
-		if vrt.Choose("shape", 2) == 0 {
-			nT = 4
-		} else {
-			universe = vUniverse
-		}
+		// one key over four tables (two keys over three tables: H_C06_TwoKeys, in both tiers)
+		nT = 4
 	}
 	vCycle(universe, nT, false)
 }
@@ -83,7 +79,11 @@ func vCycle(universe [][]byte, nT int, reduced bool) {
 		h.db.compactionFileThreshold = 0
 	} else {
 		h.db.compactionRatio = vRatios[vrt.Choose("ratio", len(vRatios))]
-		h.db.compactionFileThreshold = vrt.Range("threshold", 0, 2)
+		maxThreshold := 2
+		if nT > 3 {
+			maxThreshold = 1 // four tables: a larger threshold only means that fewer cycles run
+		}
+		h.db.compactionFileThreshold = vrt.Range("threshold", 0, maxThreshold)
 	}
 
 	// selection must be a gap-free run in age order
